@@ -171,19 +171,36 @@ func complexityGenome(cplx int) *genetics.Genome {
 }
 
 func checkExperiment(sc *statsCase, c *checker) int {
+	// The experiment GROWS the way Execute grows it - trial by trial, generation by generation, inside the Experiment value -
+	// and while it grows every aggregate is asked (as an observer showing progress would): the answers given for the finished
+	// experiment must be those of its recorded generations, whatever was asked before (Stats.tla: the aggregates are functions
+	// of the record).  The intermediate answers themselves are not judged here (every prefix is a case of its own).
 	e := experiment.Experiment{Id: 1, Trials: make(experiment.Trials, len(sc.Trials))}
+	touch := func(i int) {
+		_ = guard(func() {
+			e.TrialsSolved(); e.Solved(); e.SuccessRate(); e.AvgGenerationsPerTrial(); e.AvgWinnerStatistics()
+			e.BestFitness(); e.BestSpeciesAge(); e.BestComplexity(); e.AvgDiversity(); e.EpochsPerTrial()
+			e.BestOrganism(false); e.BestOrganism(true); e.AvgTrialDuration(); e.AvgEpochDuration(); e.MostRecentTrialEvalTime()
+		})
+		_ = guard(func() {
+			t := &e.Trials[i]
+			t.Solved(); t.ChampionsFitness(); t.ChampionSpeciesAges(); t.ChampionsComplexities(); t.Diversity(); t.Average()
+			t.WinnerStatistics(); t.BestOrganism(false); t.BestOrganism(true); t.AvgEpochDuration(); t.RecentEpochEvalTime()
+		})
+	}
 	for i, t := range sc.Trials {
-		tr := experiment.Trial{Id: i}
+		e.Trials[i] = experiment.Trial{Id: i}
+		touch(i)
 		for j, g := range t {
 			org, _ := genetics.NewOrganism(float64(g.Fit), complexityGenome(g.Cplx), j)
 			org.Species = genetics.NewSpecies(j + 1)
 			org.Species.Age = g.Age
-			tr.Generations = append(tr.Generations, experiment.Generation{Id: j, TrialId: i, Solved: g.Solved, Champion: org,
+			e.Trials[i].Generations = append(e.Trials[i].Generations, experiment.Generation{Id: j, TrialId: i, Solved: g.Solved, Champion: org,
 				Diversity: g.Div, WinnerNodes: g.Wn, WinnerGenes: g.Wg, WinnerEvals: g.We,
 				Fitness: experiment.Floats{float64(g.Fit)}, Age: experiment.Floats{float64(g.Age)},
 				Complexity: experiment.Floats{float64(g.Cplx)}})
+			touch(i)
 		}
-		e.Trials[i] = tr
 	}
 	a := sc.Agg
 	nt := float64(a.Trials)
